@@ -239,8 +239,8 @@ def canon(v: Any, b: Built, meta: bool = True):
         return ["t"] + [canon(x, b, meta) for x in v]
     if isinstance(v, GengyList):
         return ["l"] + _meta(v, meta) + [canon(x, b, meta) for x in v]
-    if type(v) is list:
-        return ["x", "pylist"]
+    if type(v) is list:  # a plain Python list (the stack representation builds these)
+        return ["l", "noctx", "noctx"] + [canon(x, b, meta) for x in v]
     if type(v) in b.index:
         names = getattr(type(v), "__gengy_field_names__", ())
         try:
